@@ -92,6 +92,9 @@ type acaseT struct {
 	// What the client accepts is the joined list, which is what the oracle and the real Accepts (asked on a fresh
 	// request carrying both lines) see.
 	AcceptAdd string `json:",omitempty"`
+	// AfterNoRoute: a request for a path no route matches is served first; the app's NoRoute handler answers it
+	// with c.NotFound(nil) (an error response of its own, which aborts on a pooled context without a chain)
+	AfterNoRoute bool `json:",omitempty"`
 }
 
 // accept: the Accept header as the failing handler sees it (field lines joined)
@@ -505,6 +508,7 @@ func getApp(opts []optT, noCancel, prod bool) *builtApp {
 			a.GET(fmt.Sprintf("/t/%d/%d/:tail", n, nb), handlerAt(1+nb), app.WithBefore(before...), app.WithAfter(after...))
 		}
 	}
+	a.NoRoute(func(c *app.Context) { c.NotFound(nil) })
 	offers := lastOffers(opts)
 	a.GET("/accepts", func(c *app.Context) {
 		seen := map[string]bool{}
@@ -645,6 +649,10 @@ func observe(slot, st int, ct string, body []byte, panicked bool) obsT {
 func runA(k acaseT) (obsT, []string) {
 	b := getApp(k.Opts, k.NoCancelCheck, k.Prod)
 	answers := answersFor(b, k.acceptSeen())
+	if k.AfterNoRoute {
+		slots[0].c = nil
+		serve(b, "r", "/no/such/route", k.Accept, 0)
+	}
 	arm(0, &k)
 	st, ct, body, panicked := serve(b, k.Wire, k.route(), k.Accept, 0)
 	return observe(0, st, ct, body, panicked), answers
@@ -1149,6 +1157,9 @@ func lineA(id string, k acaseT, o obsT, answers []string, st *hx.Stats) string {
 		}
 		if k.AcceptAdd != "" {
 			st.Count("fail_after_accept_line_added_mid_request")
+		}
+		if k.AfterNoRoute {
+			st.Count("fail_after_a_request_answered_by_the_noroute_handler")
 		}
 		if badSeen {
 			st.Count("fail_details_unencodable")
